@@ -117,6 +117,17 @@ class Conv:
             if len(wire_val) < 2:
                 return False, None
             return True, str(UUID(int=(wire_val[0] << 64) | wire_val[1]))
+        # a converter this table does not know by name: for a sub-message field the model class is read from the field's annotation - whatever
+        # function does the conversion, the nested model must carry the nested message's field values
+        from google.protobuf.descriptor import FieldDescriptor as _FD
+        import re as _re
+
+        if fd.type == _FD.TYPE_MESSAGE:
+            ann = f.type if isinstance(f.type, str) else getattr(f.type, "__name__", "")
+            subs = [getattr(M, n_) for n_ in _re.findall(r"[A-Za-z_]\w*", ann)
+                    if isinstance(getattr(M, n_, None), type) and issubclass(getattr(M, n_), M.APIModelBase)]
+            if subs:
+                return True, (("models", subs[-1], list(wire_val)) if fd.is_repeated else ("model", subs[-1], wire_val))
         self.unmodelled.add(f"{model_cls.__name__}.{f.name}: {fname or conv!r}")
         return False, None
 
